@@ -88,6 +88,9 @@ class Module:
                 self.tree, c2 = normalize(self.tree)
                 for k_, v_ in c2.items():
                     self.norm_counts[k_] = self.norm_counts.get(k_, 0) + v_
+            if self.inlined:
+                from .normalize import value_objects_to_locals
+                self.norm_counts['value_objects'] = value_objects_to_locals(self.tree)
             from .normalize import split_tuple_assignments, fold_constant_conditions
             self.norm_counts['folded'] = fold_constant_conditions(self.tree)
             self.norm_counts['tuple_split'] = split_tuple_assignments(self.tree)
@@ -105,7 +108,8 @@ class Module:
                 if loops_to_comprehensions(self.tree):
                     for q_, d_ in propagate.apply(self.tree, relpath).items():
                         self.propagated.setdefault(q_, []).extend(d_)
-            from .normalize import unroll_literal_loops, fuse_nested_comprehensions
+            from .normalize import unroll_literal_loops, fuse_nested_comprehensions, immediate_partials_to_calls
+            self.norm_counts['immediate_partials'] = immediate_partials_to_calls(self.tree)
             self.norm_counts['unrolled'] = unroll_literal_loops(self.tree)
             self.norm_counts['fused'] = fuse_nested_comprehensions(self.tree)
             from .normalize import flatten_starred_displays, slice_objects_to_slices
